@@ -364,6 +364,68 @@ def gen_proc(rng, change_ncpu=False, decoy="mixed"):
             "clk": clk, "events": evs}
 
 
+def gen_pblock(rng, const=True):
+    """Process-level histories mixing calls inside and outside oneshot() blocks (nested too), as_dict(...) and
+    process_iter(attrs=...): cpu_times() / cpu_percent() in every order, two cpu_percent() in one block, a plain call after
+    the block.  const: /proc/<pid>/stat stands still while any block is open (block transparency applies); otherwise it
+    may move inside a block (the block keeps its first read)."""
+    clk = rng.choice(CLKS)
+    ncpu = rng.choice([1, 2, 4, 0])
+    t = Fraction(rng.randint(0, 2 ** 16), 8)
+    tk = [rng.randint(0, 10 ** 5), rng.randint(0, 10 ** 5), rng.randint(0, 10 ** 4), rng.randint(0, 10 ** 4), rng.randint(0, 10 ** 3)]
+    depth = {0: 0, 1: 0}
+    ops = []
+
+    def adv():
+        nonlocal t
+        t += Fraction(rng.choice([1, 4, 8, 84, rng.randint(1, 4000)]), 8)
+        if not (const and any(depth.values())):
+            tk[0] += rng.choice([0, 1, 5, clk, rng.randint(0, 10 ** 4)])
+            tk[1] += rng.choice([0, 1, 7, rng.randint(0, 10 ** 3)])
+            for i in (2, 3, 4):
+                tk[i] += rng.choice([0, 0, 3, rng.randint(0, 10 ** 4)])
+        return [[t.numerator, t.denominator]] + list(tk)
+
+    def percent(o, iv=None):
+        iv = iv or rng.choice(["none", "none", "none", "zero", "pos", "neg"])
+        r1 = adv()
+        r2 = adv() if iv == "pos" else list(r1)
+        ops.append({"op": "percent", "obj": o, "iv": iv, "r1": r1, "r2": r2, "zero": rng.choice([0, 0.0])})
+
+    used = set()
+    for _ in range(rng.randint(4, 10)):
+        o = rng.choice([0, 0, 1])
+        k = rng.random()
+        if k < 0.16 and depth[o] < 2:
+            ops.append({"op": "enter", "obj": o})
+            depth[o] += 1
+        elif k < 0.30 and depth[o] > 0:
+            ops.append({"op": "exit", "obj": o})
+            depth[o] -= 1
+        elif k < 0.50:
+            ops.append({"op": "times", "obj": o, "r": adv()})
+        elif k < 0.80:
+            percent(o)
+        elif k < 0.92:
+            ops.append({"op": "as_dict", "obj": o, "attrs": rng.choice([["cpu_times", "cpu_percent"], ["cpu_times", "cpu_percent"], ["cpu_percent"], ["cpu_times"]]),
+                        "r": adv()})
+        else:
+            ops.append({"op": "iter", "obj": 9, "attrs": rng.choice([["cpu_times", "cpu_percent"], ["cpu_percent"]]), "r": adv()})
+            used.add(9)
+        used.add(o)
+    for o in (0, 1):                      # leave every block, then a plain call: a bogus stored sample shows only now
+        while depth[o] > 0:
+            ops.append({"op": "exit", "obj": o})
+            depth[o] -= 1
+    for o in sorted(used):
+        if o == 9:
+            ops.append({"op": "iter", "obj": 9, "attrs": ["cpu_times", "cpu_percent"], "r": adv()})
+        else:
+            percent(o, iv=rng.choice(["none", "zero"]))
+    inblock = any(x["op"] in ("enter", "as_dict", "iter") for x in ops)
+    return {"kind": "pblock", "cls": "pblock-%s%s" % ("const" if const else "moving", "" if inblock else "-noblock"), "clk": clk, "ncpu": ncpu, "ops": ops}
+
+
 def _exhaustive_shapes():
     out = []
     for nf in (7, 8, 9, 10):
@@ -396,10 +458,12 @@ def gen_cases(rng, tier):
     cases += [gen_life(rng, inherit=False) for _ in range(30 * n)]
     cases += [gen_life(rng, inherit=True) for _ in range(10 * n)]
     cases += [gen_life(rng) for _ in range(10 * n)]
-    cases += [gen_proc(rng) for _ in range(60 * n)]
-    cases += [gen_proc(rng, decoy="only") for _ in range(25 * n)]
-    cases += [gen_proc(rng, decoy="still") for _ in range(10 * n)]
-    cases += [gen_proc(rng, True) for _ in range(20 * n)]
+    cases += [gen_proc(rng) for _ in range(40 * n)]
+    cases += [gen_proc(rng, decoy="only") for _ in range(15 * n)]
+    cases += [gen_proc(rng, decoy="still") for _ in range(5 * n)]
+    cases += [gen_proc(rng, True) for _ in range(15 * n)]
+    cases += [gen_pblock(rng, True) for _ in range(35 * n)]
+    cases += [gen_pblock(rng, False) for _ in range(20 * n)]
     return cases
 
 
@@ -456,6 +520,28 @@ def coq_term(case):
         imp_tid, imp_hex = _imp_of(case)
         imp = "(Some (%d, %s))" % (imp_tid, G.by(bytes.fromhex(imp_hex)))
         return "run_script_raw %s %s %s" % (clk, imp, G.lst(evs))
+    if k == "pblock":
+        rd = lambda r: "(mk_rd %s %d %d %d %d %d)" % (_q(r[0]), r[1], r[2], r[3], r[4], r[5])  # noqa: E731
+        sr = lambda r: "(mk_sr %d %d %d %d %d)" % tuple(r[1:6])  # noqa: E731
+        evs = []
+        for o in case["ops"]:
+            ob = o["obj"]
+            if o["op"] == "enter":
+                evs.append("(%d, BEnter)" % ob)
+            elif o["op"] == "exit":
+                evs.append("(%d, BExit)" % ob)
+            elif o["op"] == "times":
+                evs.append("(%d, BTimes %s)" % (ob, sr(o["r"])))
+            elif o["op"] == "percent":
+                evs.append("(mk_bp %d %s %s %s %s)" % (ob, IV[o["iv"]], G.z(case["ncpu"]), rd(o["r1"]), rd(o["r2"])))
+            else:       # as_dict / process_iter(attrs): a block around the getters (file constant during the call)
+                evs.append("(%d, BEnter)" % ob)
+                if "cpu_times" in o["attrs"]:
+                    evs.append("(%d, BTimes %s)" % (ob, sr(o["r"])))
+                if "cpu_percent" in o["attrs"]:
+                    evs.append("(mk_bp %d INone %s %s %s)" % (ob, G.z(case["ncpu"]), rd(o["r"]), rd(o["r"])))
+                evs.append("(%d, BExit)" % ob)
+        return "run_pb %s [0; 1; 9] %s" % (clk, G.lst(evs))
     if k == "proc":
         rd = lambda r: "(mk_rd %s %d %d %d %d %d)" % (_q(r[0]), r[1], r[2], r[3], r[4], r[5])  # noqa: E731
         evs = ["(mk_pev %d %s %s %s %s)" % (e["obj"], IV[e["iv"]], G.z(e["ncpu"]), rd(e["r1"]), rd(e["r2"])) for e in case["events"]]
@@ -487,6 +573,12 @@ def coq_struct(case, raw):
                 "legacy_inherit_class": raw[6] is False, "legacy_ident_keyed_answer": raw[8]}
     if k == "script_raw":
         return {"model": raw[0], "spec": None}
+    if k == "pblock":
+        if raw[0] != raw[1]:
+            raise RuntimeError("model and spec differ on a block history (C07_block_values_exact): %r" % (case,))
+        if raw[2] is True and raw[0] != raw[3]:
+            raise RuntimeError("blocks are not transparent in the model although const_blocks holds (C07_oneshot_block_transparent): %r" % (case,))
+        return {"model": raw[0], "spec": raw[1], "const_blocks": raw[2]}
     if k == "proc":
         return {"model": raw[0], "spec": raw[1]}
     raise ValueError(k)
@@ -746,6 +838,8 @@ def impl_run(case, coq, env):
             return _run_script(case, coq, env, time)
         if k == "proc":
             return _run_proc(case, coq, env, time)
+        if k == "pblock":
+            return _run_pblock(case, coq, env, time)
         raise ValueError(k)
     except _ImportFailed as e:
         # the implementation cannot even be imported over this /proc/stat: an answer, judged like any other
@@ -944,6 +1038,110 @@ def _run_proc(case, coq, env, time):
             out.append(r)
     finally:
         time.sleep = real_sleep
+        fr.close()
+    return out
+
+
+def _run_pblock(case, coq, env, time):
+    """Process-level history with real oneshot() contexts (entered/left by hand so that calls of several objects interleave),
+    as_dict(attrs) and process_iter(attrs=...)."""
+    pid = 4242
+    objs, stacks = {}, {}
+    now = {"t": 0.0}
+    pending = {"then": None, "slept": 0}
+    real_sleep = time.sleep
+    ncpu = {"n": case["ncpu"]}
+    fr = _Fresh(env, case["clk"], None, clock=now, ncpu=ncpu)
+    psutil, fp = fr.psutil, fr.fp
+    fr.use_fake_tree()
+    first = next(o for o in case["ops"] if o["op"] not in ("enter", "exit"))
+    _set_proc_stat(fp, pid, first.get("r") or first["r1"])
+    tol_p = lambda c: Fraction(1, 20) + Fraction(1, 10 ** 9) * max(1, abs(c))  # noqa: E731
+    rel = lambda c: Fraction(1, 2 ** 48) * max(1, abs(c))  # noqa: E731
+
+    def fake_sleep(x):
+        pending["slept"] += 1
+        if pending["then"]:
+            r2 = pending["then"]
+            now["t"] = float(Fraction(*r2[0]))
+            _set_proc_stat(fp, pid, r2)
+    time.sleep = fake_sleep
+    out = []
+
+    def conv_times(ct):
+        if type(ct).__name__ != "pcputimes" or tuple(ct._fields) != ("user", "system", "children_user", "children_system", "iowait"):
+            raise _BadShape("cpu_times() -> %r" % (ct,))
+        return ("PTimes", [_frac(x) for x in ct])
+
+    def push(r, kind):
+        idx = len(out)
+        if isinstance(r, dict) and r.get("t") == "Val":
+            r = _snap_outcome(r, [coq["model"][idx], coq["spec"][idx]], rel if kind == "times" else tol_p)
+        out.append(r)
+
+    def getp(o):
+        if o not in objs:
+            objs[o] = psutil.Process(pid)
+            stacks[o] = []
+        return objs[o]
+    try:
+        for e in case["ops"]:
+            op = e["op"]
+            if op == "enter":
+                cm = getp(e["obj"]).oneshot()
+                cm.__enter__()
+                stacks[e["obj"]].append(cm)
+                continue
+            if op == "exit":
+                getp(e["obj"])
+                stacks[e["obj"]].pop().__exit__(None, None, None)
+                continue
+            r1 = e.get("r") or e["r1"]
+            t1 = Fraction(*r1[0])
+            assert Fraction(float(t1)) == t1
+            now["t"] = float(t1)
+            _set_proc_stat(fp, pid, r1)
+            pending["then"], pending["slept"] = None, 0
+            if op == "times":
+                push(_shape_outcome(getp(e["obj"]).cpu_times, conv_times), "times")
+            elif op == "percent":
+                p = getp(e["obj"])
+                pending["then"] = e["r2"] if e["iv"] == "pos" else None
+                iv = {"none": None, "zero": e.get("zero", 0), "pos": 0.5, "neg": -0.5}[e["iv"]]
+                r = _shape_outcome(lambda: p.cpu_percent(interval=iv), lambda x: ("Pct", _frac(x)))
+                is_val = r.get("t") == "Val"
+                want = 1 if e["iv"] == "pos" else 0
+                if (pending["slept"] != want) if is_val else (pending["slept"] > want):
+                    r = T("SleepCalls", pending["slept"])
+                push(r, "pct")
+            else:
+                if op == "as_dict":
+                    d = _shape_outcome(lambda: getp(e["obj"]).as_dict(attrs=list(e["attrs"])), lambda x: x)
+                else:
+                    def it():
+                        ps = [q for q in psutil.process_iter(attrs=list(e["attrs"])) if q.pid == pid]
+                        if len(ps) != 1:
+                            raise _BadShape("process_iter() yielded %d objects for the pid" % len(ps))
+                        return ps[0].info
+                    d = _shape_outcome(it, lambda x: x)
+                if d.get("t") != "Val" or not isinstance(d["a"][0], dict) or set(d["a"][0]) != set(e["attrs"]):
+                    bad = d if d.get("t") != "Val" else T("BadShape", "keys %r" % (sorted(d["a"][0]) if isinstance(d["a"][0], dict) else d["a"][0],))
+                    for _ in e["attrs"]:
+                        out.append(bad)
+                    continue
+                info = d["a"][0]
+                if "cpu_times" in e["attrs"]:
+                    push(_shape_outcome(lambda: info["cpu_times"], conv_times), "times")
+                if "cpu_percent" in e["attrs"]:
+                    push(_shape_outcome(lambda: info["cpu_percent"], lambda x: ("Pct", _frac(x))), "pct")
+    finally:
+        time.sleep = real_sleep
+        for st in stacks.values():
+            while st:
+                try:
+                    st.pop().__exit__(None, None, None)
+                except Exception:  # noqa: BLE001
+                    pass
         fr.close()
     return out
 
